@@ -601,7 +601,7 @@ func main() {
 	start := time.Now()
 	n := 4000
 	if *tier == "thorough" {
-		n = 300000
+		n = 3000000
 	}
 	first, last := 0, n
 	if *replay != "" {
